@@ -73,6 +73,10 @@ struct K
         case FN_ATAN2: b([](B x, B y) { return xs::atan2(x, y); }, in0, in1, out0, n); break;
         case FN_HYPOT: b([](B x, B y) { return xs::hypot(x, y); }, in0, in1, out0, n); break;
         case FN_POW: b([](B x, B y) { return xs::pow(x, y); }, in0, in1, out0, n); break;
+        case FN_IPOW:
+            for (size_t i = 0; i + N <= n; i += N)
+                xs::pow(B::load_unaligned(in0 + i), (int)in1[i]).store_unaligned(out0 + i);
+            break;
         default: return -1;
         }
         return 0;
